@@ -275,8 +275,12 @@ func (g *genv) node(depth int) *N {
 
 func (g *genv) newName() string {
 	// reuse an existing assignable name sometimes (re-assignment, shadowing)
-	pool := []string{"v1", "v2", "v3", "n", "s", "a"}
-	return pool[g.pick("name", len(pool))]
+	pool := []string{"v1", "v2", "v3", "n", "s", "a", "my-var", "v1", "v2", "forloop"}
+	name := pool[g.pick("name", len(pool))]
+	if name == "forloop" && g.inLoop > 0 {
+		name = "v3" // assigning forloop inside a loop body: the statement does not say what the loop then sees
+	}
+	return name
 }
 
 func (g *genv) assign() *N {
@@ -292,7 +296,7 @@ func (g *genv) assign() *N {
 }
 
 func (g *genv) capture(depth int) *N {
-	name := []string{"c1", "c2", "s"}[g.pick("cname", 3)]
+	name := []string{"c1", "c2", "s", "ok?"}[g.pick("cname", 4)]
 	// break/continue escaping a capture body is excluded by construction
 	saved := g.inLoop
 	g.inLoop = 0
